@@ -51,6 +51,6 @@ def main():
          'engines': [{'name': 'cbmc-contracts', 'path': 'tools/check.py', 'serves_properties': sorted(CLAIMED), 'kind_free_text': 'bx2c (clang AST -> C) + contracts/*.spec + obligation generator + CBMC 6.11 (CaDiCaL), native ASan replay'}],
          'checks': checks,
          'notes': 'fix: commits in /repo are recorded as fixed: lines in known_findings.txt; known: lines list recorded defects.',
-         'not_applicable': [{'property_id': k, 'reason': v} for k, v in sorted(NA.items()) if k not in CLAIMED]}
+         'not_applicable': [{'property_id': k, 'reason': v} for k, v in sorted(NA.items()) if k not in CLAIMED and not k.startswith('_')]}
     json.dump(m, open(os.path.join(VERIF, 'MANIFEST.json'), 'w'), indent=1)
 main()
